@@ -12,7 +12,10 @@ use linfa_linear::verif_hooks_c12 as gh;
 use linfa_linear::{Link, TweedieRegressor};
 use linfa_logistic::verif_hooks_c12 as lh;
 use linfa_logistic::{LogisticRegression, MultiLogisticRegression};
-use ndarray::{Array1, Array2};
+use ndarray::{s, Array1, Array2, ArrayView2, ShapeBuilder};
+
+#[path = "c12_ext.rs"]
+mod ext;
 
 type M = Vec<Vec<f64>>;
 
@@ -44,6 +47,32 @@ fn arr2(m: &M, ncols: usize) -> Array2<f64> {
 fn to_m(a: &Array2<f64>) -> M {
     a.rows().into_iter().map(|r| r.to_vec()).collect()
 }
+/// the matrix `m` stored in one of several memory layouts; `view()` always shows the same logical matrix.
+/// 0: standard (C order), 1: Fortran order, 2: every second row and column of a larger NaN-filled
+/// array (strided view), 3: rows stored in reverse (negative row stride)
+pub struct Lay {
+    base: Array2<f64>,
+    lay: usize,
+}
+impl Lay {
+    pub fn new(m: &M, ncols: usize, lay: usize) -> Lay {
+        let n = m.len();
+        let base = match lay {
+            0 => arr2(m, ncols),
+            1 => Array2::from_shape_fn((n, ncols).f(), |(i, j)| m[i][j]),
+            2 => Array2::from_shape_fn((2 * n, 2 * ncols), |(i, j)| if i % 2 == 0 && j % 2 == 0 { m[i / 2][j / 2] } else { f64::NAN }),
+            _ => Array2::from_shape_fn((n, ncols), |(i, j)| m[n - 1 - i][j]),
+        };
+        Lay { base, lay }
+    }
+    pub fn view(&self) -> ArrayView2<'_, f64> {
+        match self.lay {
+            0 | 1 => self.base.view(),
+            2 => self.base.slice(s![..;2, ..;2]),
+            _ => self.base.slice(s![..;-1, ..]),
+        }
+    }
+}
 fn norm2(v: &[f64]) -> f64 {
     v.iter().map(|x| x * x).sum::<f64>().sqrt()
 }
@@ -68,6 +97,14 @@ fn gen_mat(rng: &mut Rng, n: usize, p: usize, lattice: bool, scale: f64) -> M {
 fn op_label2(em: &mut Em, y: Vec<usize>, ty: usize) {
     let op = format!("label2 y={} ty={}", list(y.iter(), |v| v.to_string()), ty);
     em.count(&format!("label2:ty={}", ty));
+    {
+        let mut d: Vec<usize> = y.clone();
+        d.sort();
+        d.dedup();
+        if d.len() == 2 && 2 * y.iter().filter(|c| **c == d[0]).count() == y.len() {
+            em.count("label2:balanced_classes");
+        }
+    }
     let names = ["pear", "apple", "zebra", "fig", "kiwi"];
     em.case(op, move |ctx| {
         let res: Result<(usize, usize, Vec<f64>), String> = match ty {
@@ -91,6 +128,12 @@ fn op_label2(em: &mut Em, y: Vec<usize>, ty: usize) {
                 ctx.require(pos != neg && cp + cn == y.len() && cp > 0 && cn > 0, "class_set", "label2", || format!("pos={} neg={} y={:?}", pos, neg, y));
                 ctx.require(cp >= cn, "larger_class_positive", "label2", || format!("pos={} ({}x) neg={} ({}x)", pos, cp, neg, cn));
                 ctx.require(t.len() == y.len() && t.iter().zip(y.iter()).all(|(t, c)| *t == if *c == pos { 1.0 } else { -1.0 }), "labels_pm_one", "label2", || format!("targets {:?} for y={:?} pos={}", t, y, pos));
+                if cp == cn {
+                    // both classes equally frequent: the statement fixes the class set and a +-1 coding, not which of
+                    // the two is called positive -> compared up to the swap (targets normalised to start with +1)
+                    let sgn = if t.first().map_or(false, |v| *v < 0.0) { -1.0 } else { 1.0 };
+                    return format!("ok tie classes={},{} t={}", pos.min(neg), pos.max(neg), list(t.iter(), |v| ((*v * sgn) as i64).to_string()));
+                }
                 format!("ok pos={} neg={} t={}", pos, neg, list(t.iter(), |v| (*v as i64).to_string()))
             }
         }
@@ -428,56 +471,95 @@ fn op_mloss_mgrad(em: &mut Em, rng: &mut Rng, lattice: bool) {
 
 // ------------------------------------------------------------------ prediction at extreme scores
 
-fn op_predict2(em: &mut Em, rng: &mut Rng) {
+/// `ext` = the extreme stream: scores with a large common offset (all very negative / all very positive), widely
+/// spread or exactly tied, |x| up to 1e3, every memory layout of the records.
+fn op_predict2(em: &mut Em, rng: &mut Rng, ext: bool) {
     let n = 1 + rng.below(6);
     let nf = 1 + rng.below(3);
-    let x = gen_mat(rng, n, nf, true, 1.0);
-    // |x.w| up to ~ 2e3
+    let xs = if ext { *rng.pick(&[1.0, 8.0, 1000.0]) } else { 1.0 };
+    let x: M = gen_mat(rng, n, nf, true, 1.0).iter().map(|r| r.iter().map(|v| v * xs).collect()).collect();
+    // |x.w| up to ~ 2e3 (ext: 4e6)
     let big = *rng.pick(&[1i64, 8, 64, 512]);
-    let w: Vec<f64> = (0..nf).map(|_| rng.range(-big, big) as f64).collect();
-    let b = rng.range(-big, big) as f64 / 2.0;
+    let w: Vec<f64> = (0..nf).map(|_| if ext && rng.chance(1, 4) { 0.0 } else { rng.range(-big, big) as f64 }).collect();
+    let off = if ext { *rng.pick(&[0.0, -800.0, 800.0, -745.25, 709.75, -37.0, 37.0, -5000.0, 5000.0, -1e5, 1e5]) } else { 0.0 };
+    let b = rng.range(-big, big) as f64 / 2.0 + off;
     let thr = *rng.pick(&[0.5, 0.5, 0.25, 0.75, 0.0, 1.0]);
+    let lay = if ext { rng.below(4) } else { 0 };
     em.count(&format!("predict2:scale={}", big));
-    let op = format!("predict2 x={} w={} b={} thr={}", hx2(&x), hx(&w), hex64(b), hex64(thr));
+    if ext {
+        em.count(&format!("predict2:ext:lay={}", lay));
+    }
+    let op = format!("predict2 x={} w={} b={} thr={} lay={}", hx2(&x), hx(&w), hex64(b), hex64(thr), lay);
     em.case_valid(op, "predict2", move |ctx| {
         let m = lh::fitted_binary_hook(b, Array1::from(w.clone()), 1usize, 0usize).set_threshold(thr);
-        let xa = arr2(&x, nf);
-        let p = m.predict_probabilities(&xa).to_vec();
-        let cls = m.predict(&xa).to_vec();
-        ctx.require(p.iter().all(|q| *q >= 0.0 && *q <= 1.0), "proba_in_unit_interval", "binary", || format!("probabilities {:?}", p));
-        for i in 0..n {
+        let xl = Lay::new(&x, nf, lay);
+        let (p, cls) = if lay == 0 {
+            let xa = arr2(&x, nf);
+            (m.predict_probabilities(&xa).to_vec(), m.predict(&xa).to_vec())
+        } else {
+            (m.predict_probabilities(&xl.view()).to_vec(), m.predict(&xl.view()).to_vec())
+        };
+        ctx.require(p.len() == n && p.iter().all(|q| q.is_finite() && *q >= 0.0 && *q <= 1.0), "proba_in_unit_interval", "binary", || format!("probabilities {:?}", p));
+        for i in 0..n.min(p.len()) {
             let want = if p[i] >= thr { 1 } else { 0 };
             ctx.require(cls[i] == want, "class_is_what_threshold_implies", "binary", || format!("row {}: p={} thr={} class={}", i, p[i], thr, cls[i]));
+            // first principles: the probability is the logistic function of the (exact, lattice) score
+            let z: f64 = x[i].iter().zip(&w).map(|(a, c)| a * c).sum::<f64>() + b;
+            ctx.require(close(p[i], sigmoid(z), 1e-12, 1e-300), "proba_is_logistic_of_score", "binary", || format!("row {}: p={} but logistic({}) = {}", i, p[i], z, sigmoid(z)));
         }
         let margin = p.iter().map(|q| (q - thr).abs()).fold(f64::INFINITY, f64::min);
         format!("ok p={} cls={} margin={}", tfs(&p), list(cls.iter(), |c| c.to_string()), tf(margin))
     });
 }
 
-fn op_predictm(em: &mut Em, rng: &mut Rng) {
+fn op_predictm(em: &mut Em, rng: &mut Rng, ext: bool) {
     let n = 1 + rng.below(5);
     let nf = 1 + rng.below(3);
     let k = 2 + rng.below(5);
-    let x = gen_mat(rng, n, nf, true, 1.0);
-    let big = *rng.pick(&[1i64, 8, 64, 512]);
+    let xs = if ext { *rng.pick(&[1.0, 8.0, 1000.0]) } else { 1.0 };
+    let x: M = gen_mat(rng, n, nf, true, 1.0).iter().map(|r| r.iter().map(|v| v * xs).collect()).collect();
+    let big = if ext { *rng.pick(&[0i64, 1, 8, 64, 512]) } else { *rng.pick(&[1i64, 8, 64, 512]) };
     let w: M = (0..nf).map(|_| (0..k).map(|_| rng.range(-big, big) as f64).collect()).collect();
-    let b: Vec<f64> = (0..k).map(|_| rng.range(-big, big) as f64 / 2.0).collect();
+    // common offset of all class scores: softmax must not depend on it
+    let off = if ext { *rng.pick(&[0.0, -800.0, -746.0, -1000.0, 800.0, 710.0, 1000.0, -5000.0, 5000.0, -1e5, 1e5, -4e6]) } else { 0.0 };
+    let bb = if ext && rng.chance(1, 3) { 0 } else { big.max(1) };
+    let b: Vec<f64> = (0..k).map(|_| rng.range(-bb, bb) as f64 / 2.0 + off).collect();
+    let lay = if ext { rng.below(4) } else { 0 };
     em.count(&format!("predictm:scale={}", big));
-    let op = format!("predictm k={} x={} w={} b={}", k, hx2(&x), hx2(&w), hx(&b));
+    if ext {
+        em.count(&format!("predictm:ext:lay={}", lay));
+        let all_below = x.iter().any(|r| (0..k).all(|c| r.iter().enumerate().map(|(j, a)| a * w[j][c]).sum::<f64>() + b[c] < -745.2));
+        let all_above = x.iter().any(|r| (0..k).all(|c| r.iter().enumerate().map(|(j, a)| a * w[j][c]).sum::<f64>() + b[c] > 709.8));
+        if all_below {
+            em.count("predictm:ext:row_with_all_scores_below_exp_underflow");
+        }
+        if all_above {
+            em.count("predictm:ext:row_with_all_scores_above_exp_overflow");
+        }
+    }
+    let op = format!("predictm k={} x={} w={} b={} lay={}", k, hx2(&x), hx2(&w), hx(&b), lay);
     em.case_valid(op, "predictm", move |ctx| {
         let m = lh::fitted_multi_hook(Array1::from(b.clone()), arr2(&w, k), (0..k).collect::<Vec<usize>>());
-        let xa = arr2(&x, nf);
-        let p = to_m(&m.predict_probabilities(&xa));
-        let cls = m.predict(&xa).to_vec();
+        let xl = Lay::new(&x, nf, lay);
+        let (p, cls) = if lay == 0 {
+            let xa = arr2(&x, nf);
+            (to_m(&m.predict_probabilities(&xa)), m.predict(&xa).to_vec())
+        } else {
+            (to_m(&m.predict_probabilities(&xl.view())), m.predict(&xl.view()).to_vec())
+        };
+        ctx.require(p.len() == n && cls.len() == n, "shape", "multi", || format!("{} probability rows, {} classes for {} rows", p.len(), cls.len(), n));
         let mut margin = f64::INFINITY;
-        for i in 0..n {
-            ctx.require(p[i].iter().all(|q| *q >= 0.0 && *q <= 1.0), "proba_in_unit_interval", "multi", || format!("row {}: {:?}", i, p[i]));
-            ctx.require((p[i].iter().sum::<f64>() - 1.0).abs() <= 1e-12, "rows_sum_to_one", "multi", || format!("row {}: {:?} sums to {}", i, p[i], p[i].iter().sum::<f64>()));
+        for i in 0..n.min(p.len()) {
+            // scores are exact on this lattice
+            let h: Vec<f64> = (0..k).map(|c| x[i].iter().enumerate().map(|(j, a)| a * w[j][c]).sum::<f64>() + b[c]).collect();
+            ctx.require(p[i].len() == k && p[i].iter().all(|q| q.is_finite() && *q >= 0.0 && *q <= 1.0), "proba_in_unit_interval", "multi", || format!("row {} with class scores {:?}: probabilities {:?}", i, h, p[i]));
+            ctx.require((p[i].iter().sum::<f64>() - 1.0).abs() <= 1e-12, "rows_sum_to_one", "multi", || format!("row {} with class scores {:?}: {:?} sums to {}", i, h, p[i], p[i].iter().sum::<f64>()));
             // the class must carry the largest probability (several classes may share it after saturation)
             let pm = p[i].iter().cloned().fold(f64::NEG_INFINITY, f64::max);
             ctx.require(cls[i] < k && p[i][cls[i]] == pm, "class_is_argmax_of_probabilities", "multi", || format!("row {}: class {} with probabilities {:?}", i, cls[i], p[i]));
-            // scores are exact on this lattice: gap of the un-normalised scores
-            let h: Vec<f64> = (0..k).map(|c| x[i].iter().enumerate().map(|(j, a)| a * w[j][c]).sum::<f64>() + b[c]).collect();
+            // first principles: the probabilities are the softmax of the scores
+            let want = softmax_row(&h);
+            ctx.require(p[i].iter().zip(&want).all(|(a, b)| close(*a, *b, 1e-11, 1e-300)), "proba_is_softmax_of_scores", "multi", || format!("row {} with class scores {:?}: probabilities {:?}, softmax {:?}", i, h, p[i], want));
             let top = h.iter().cloned().fold(f64::NEG_INFINITY, f64::max);
             let first = h.iter().position(|v| *v == top).unwrap();
             for (c, v) in h.iter().enumerate() {
@@ -526,59 +608,112 @@ fn gen_class_data(rng: &mut Rng, k: usize, alpha0: bool, scale: f64, thorough: b
 
 const LABEL_NAMES: [&str; 6] = ["pear", "apple", "zebra", "fig", "kiwi", "date"];
 
-fn op_fit2(em: &mut Em, rng: &mut Rng) {
+/// first line of an error's debug text, and a coarse kind used in the oracle class of `fit_succeeds`
+fn err_line<E: std::fmt::Debug>(e: &E) -> String {
+    format!("{:?}", e).lines().next().unwrap_or("").to_string()
+}
+fn err_kind(msg: &str) -> &'static str {
+    if msg.contains("descent direction") {
+        "linesearch_descent_direction"
+    } else {
+        "other"
+    }
+}
+
+/// rows on which the fitted models are asked for probabilities: training rows, scaled by +-1e3, and zero
+fn probe_rows(x: &M) -> M {
+    let mut out: M = x.iter().take(4).map(|r| r.iter().map(|v| v * 1e3).collect()).collect();
+    out.extend(x.iter().take(2).map(|r| r.iter().map(|v| v * -1e3).collect::<Vec<f64>>()));
+    out.extend(x.iter().take(3).cloned());
+    out.push(vec![0.0; x[0].len()]);
+    out
+}
+
+/// the real binary `fit` for one label type `C`, on records given as a view (any layout)
+#[allow(clippy::type_complexity)]
+fn fit2_any<C: Ord + Clone + Default>(params: &LogisticRegression<f64>, x: ArrayView2<f64>, y: Vec<C>, thr: Option<f64>, probe: &Array2<f64>, owned: bool) -> Result<(Vec<f64>, f64, C, C, Vec<f64>, Vec<C>), String> {
+    let m = if owned { params.fit(&Dataset::new(x.to_owned(), Array1::from(y))) } else { params.fit(&DatasetBase::new(x, Array1::from(y))) }.map_err(|e| err_line(&e))?;
+    let m = match thr {
+        Some(t) => m.set_threshold(t),
+        None => m,
+    };
+    Ok((m.params().to_vec(), m.intercept(), m.labels().pos.class.clone(), m.labels().neg.class.clone(), m.predict_probabilities(probe).to_vec(), m.predict(probe).to_vec()))
+}
+
+pub struct Fit2Case {
+    pub x: M,
+    pub y: Vec<usize>,
+    pub alpha: f64,
+    pub icpt: bool,
+    pub ty: usize,
+    pub tol: f64,
+    pub init: Option<Vec<f64>>,
+    pub thr: Option<f64>,
+    pub lay: usize,
+    /// `None` = the default budget of the crate (100)
+    pub max_iter: Option<u64>,
+    pub class: String,
+}
+
+fn op_fit2(em: &mut Em, rng: &mut Rng, i: usize) {
     let alpha = *rng.pick(&[0.0, 0.01, 0.1, 1.0, 1.0, 10.0]);
     let scale = *rng.pick(&[1.0, 1.0, 0.01, 10.0, 100.0]);
     let (x, y) = gen_class_data(rng, 2, alpha == 0.0, scale, em.thorough());
     let nf = x[0].len();
     let icpt = rng.chance(2, 3);
-    let ty = rng.below(3);
+    // label type, initial parameters, layout, threshold: cycled so that every combination of (ty, init) occurs
+    let ty = i % 3;
     let tol = *rng.pick(&[1e-4, 1e-4, 1e-6, 1e-2]);
-    let init: Option<Vec<f64>> = if rng.chance(1, 4) { Some((0..nf + icpt as usize).map(|_| (rng.unit() - 0.5) / scale).collect()) } else { None };
-    let xbig: M = x.iter().take(4).map(|r| r.iter().map(|v| v * 1e3).collect()).collect();
+    let init: Option<Vec<f64>> = if (i / 3) % 3 == 2 { Some((0..nf + icpt as usize).map(|_| (rng.unit() - 0.5) / scale).collect()) } else { None };
+    let thr = if rng.coin() { Some(*rng.pick(&[0.0, 0.25, 0.5, 0.75, 1.0])) } else { None };
+    let lay = rng.below(5);
     let class = format!("fit2:alpha={},icpt={},scale={}", if alpha == 0.0 { "0" } else { "pos" }, icpt as u8, scale);
+    run_fit2(em, Fit2Case { x, y, alpha, icpt, ty, tol, init, thr, lay, max_iter: Some(10_000), class });
+}
+
+pub fn run_fit2(em: &mut Em, c: Fit2Case) {
+    let Fit2Case { x, y, alpha, icpt, ty, tol, init, thr, lay, max_iter, class } = c;
+    let nf = x[0].len();
+    let xprobe = probe_rows(&x);
     em.count(&format!("fit2:ty={}", ty));
+    em.count(&format!("fit2:ty={},init={}", ty, init.is_some() as u8));
+    em.count(&format!("fit2:lay={}", lay));
     em.count(&class);
-    let op = format!("#fit2 ty={} alpha={} icpt={} tol={} init={} x={} y={}", ty, alpha, icpt as u8, tol, init.as_ref().map_or("none".to_string(), |i| hx(i)), hx2(&x), list(y.iter(), |c| c.to_string()));
+    let op = format!("#fit2 ty={} alpha={} icpt={} tol={} init={} thr={} lay={} maxit={} x={} y={}", ty, alpha, icpt as u8, tol, init.as_ref().map_or("none".to_string(), |i| hx(i)), thr.map_or("default".to_string(), |t| t.to_string()), lay, max_iter.map_or("default".to_string(), |t| t.to_string()), hx2(&x), list(y.iter(), |c| c.to_string()));
     trace(&op);
+    let mut fitted = false;
+    let fitted_ref = &mut fitted;
     em.case_valid(op, &class.clone(), move |ctx| {
-        let xa = arr2(&x, nf);
-        let mut params = LogisticRegression::default().alpha(alpha).with_intercept(icpt).gradient_tolerance(tol).max_iterations(10_000);
+        let xl = Lay::new(&x, nf, lay % 4);
+        let mut params = LogisticRegression::default().alpha(alpha).with_intercept(icpt).gradient_tolerance(tol);
+        if let Some(mi) = max_iter {
+            params = params.max_iterations(mi);
+        }
         if let Some(i) = &init {
             params = params.initial_params(Array1::from(i.clone()));
         }
+        let probe = arr2(&xprobe, nf);
+        // lay 4 = owned standard-layout records (the only form the unit tests use), 0..3 = views
+        let owned = lay == 4;
         // fit with the label type of the case; results are mapped back to class indices
-        let (w, b, pos, neg, p_ext, c_ext): (Vec<f64>, f64, usize, usize, Vec<f64>, Vec<usize>) = match ty {
-            0 => match params.fit(&Dataset::new(xa.clone(), Array1::from(y.clone()))) {
-                Ok(m) => (m.params().to_vec(), m.intercept(), m.labels().pos.class, m.labels().neg.class, m.predict_probabilities(&arr2(&xbig, nf)).to_vec(), m.predict(&arr2(&xbig, nf)).to_vec()),
-                Err(e) => {
-                    ctx.fail("fit_succeeds", &class, format!("fit returned {}", format!("{:?}", e).lines().next().unwrap_or("").to_string()));
-                    return "err".into();
-                }
-            },
+        let res: Result<(Vec<f64>, f64, usize, usize, Vec<f64>, Vec<usize>), String> = match ty {
+            0 => fit2_any(&params, xl.view(), y.clone(), thr, &probe, owned),
             1 => {
-                let ys: Vec<String> = y.iter().map(|c| LABEL_NAMES[*c].to_string()).collect();
                 let back = |s: &String| LABEL_NAMES.iter().position(|n| n == s).unwrap();
-                match params.fit(&Dataset::new(xa.clone(), Array1::from(ys))) {
-                    Ok(m) => (m.params().to_vec(), m.intercept(), back(&m.labels().pos.class), back(&m.labels().neg.class), m.predict_probabilities(&arr2(&xbig, nf)).to_vec(), m.predict(&arr2(&xbig, nf)).iter().map(back).collect()),
-                    Err(e) => {
-                        ctx.fail("fit_succeeds", &class, format!("fit returned {}", format!("{:?}", e).lines().next().unwrap_or("").to_string()));
-                        return "err".into();
-                    }
-                }
+                fit2_any(&params, xl.view(), y.iter().map(|c| LABEL_NAMES[*c].to_string()).collect::<Vec<String>>(), thr, &probe, owned).map(|(w, b, p, n, pe, ce)| (w, b, back(&p), back(&n), pe, ce.iter().map(back).collect()))
             }
-            _ => {
-                let yb: Vec<bool> = y.iter().map(|c| *c == 1).collect();
-                match params.fit(&Dataset::new(xa.clone(), Array1::from(yb))) {
-                    Ok(m) => (m.params().to_vec(), m.intercept(), m.labels().pos.class as usize, m.labels().neg.class as usize, m.predict_probabilities(&arr2(&xbig, nf)).to_vec(), m.predict(&arr2(&xbig, nf)).iter().map(|b| *b as usize).collect()),
-                    Err(e) => {
-                        ctx.fail("fit_succeeds", &class, format!("fit returned {}", format!("{:?}", e).lines().next().unwrap_or("").to_string()));
-                        return "err".into();
-                    }
-                }
+            _ => fit2_any(&params, xl.view(), y.iter().map(|c| *c == 1).collect::<Vec<bool>>(), thr, &probe, owned).map(|(w, b, p, n, pe, ce)| (w, b, p as usize, n as usize, pe, ce.iter().map(|b| *b as usize).collect())),
+        };
+        let (w, b, pos, neg, p_ext, c_ext) = match res {
+            Ok(r) => r,
+            Err(e) => {
+                ctx.fail("fit_succeeds", &format!("{}:err={}", class, err_kind(&e)), format!("fit returned {}", e));
+                return "err".into();
             }
         };
+        *fitted_ref = true;
         ctx.require((pos == 0 && neg == 1) || (pos == 1 && neg == 0), "class_set", &class, || format!("labels pos={} neg={}", pos, neg));
+        ctx.require(w.len() == nf && w.iter().all(|v| v.is_finite()) && b.is_finite(), "shape", &class, || format!("params {:?} intercept {}", w, b));
         let t: Vec<f64> = y.iter().map(|c| if *c == pos { 1.0 } else { -1.0 }).collect();
         let (gw, gb) = doc_grad2(&x, &t, alpha, &w, b);
         let mut g = gw;
@@ -588,67 +723,99 @@ fn op_fit2(em: &mut Em, rng: &mut Rng) {
             ctx.require(b == 0.0, "no_intercept_means_zero", &class, || format!("intercept {} although fit_intercept = false", b));
         }
         let gn = norm2(&g);
-        let floor = stagnation_floor(&x, icpt, alpha, 1.0, doc_loss2(&x, &t, alpha, &w, b));
+        let floor = stagnation_floor(&x, icpt, alpha, 0.25, doc_loss2(&x, &t, alpha, &w, b));
         ctx.require(gn <= tol * 1.0001 + floor, "stationary", &class, || format!("|gradient of the documented objective| = {:e} > gradient_tolerance {:e} (+ solver noise floor {:e}) at w={:?} b={}", gn, tol, floor, w, b));
-        ctx.require(p_ext.iter().all(|q| *q >= 0.0 && *q <= 1.0), "proba_in_unit_interval", &class, || format!("probabilities {:?} on 1e3-scaled rows", p_ext));
-        for (q, c) in p_ext.iter().zip(&c_ext) {
-            let want = if *q >= 0.5 { pos } else { neg };
-            ctx.require(*c == want, "class_is_what_threshold_implies", &class, || format!("p={} class={} (pos={})", q, c, pos));
+        ctx.require(p_ext.len() == xprobe.len() && p_ext.iter().all(|q| q.is_finite() && *q >= 0.0 && *q <= 1.0), "proba_in_unit_interval", &class, || format!("probabilities {:?} on the probe rows (training rows x +-1e3, x 1, zero)", p_ext));
+        let th = thr.unwrap_or(0.5);
+        for ((q, c), row) in p_ext.iter().zip(&c_ext).zip(&xprobe) {
+            let want = if *q >= th { pos } else { neg };
+            ctx.require(*c == want, "class_is_what_threshold_implies", &class, || format!("p={} threshold={} class={} (pos={})", q, th, c, pos));
+            let z: f64 = row.iter().zip(&w).map(|(a, c)| a * c).sum::<f64>() + b;
+            ctx.require(close(*q, sigmoid(z), 1e-9, 1e-300), "proba_is_logistic_of_score", &class, || format!("p={} but logistic({}) = {}", q, z, sigmoid(z)));
         }
         "ok".into()
     });
+    if fitted {
+        em.count("fit2:fitted");
+        em.count(&format!("fit2:fitted:ty={}", ty));
+    }
 }
 
-fn op_fitm(em: &mut Em, rng: &mut Rng) {
+fn op_fitm(em: &mut Em, rng: &mut Rng, i: usize) {
     let k = 2 + rng.below(5);
     let alpha = *rng.pick(&[0.0, 0.01, 0.1, 1.0, 1.0, 10.0]);
     let scale = *rng.pick(&[1.0, 1.0, 0.01, 10.0, 100.0]);
     let (x, y) = gen_class_data(rng, k, alpha == 0.0, scale, em.thorough());
     let nf = x[0].len();
     let icpt = rng.chance(2, 3);
-    let ty = rng.below(2);
+    let ty = i % 2;
     let tol = *rng.pick(&[1e-4, 1e-4, 1e-6, 1e-2]);
-    let init: Option<M> = if rng.chance(1, 4) { Some((0..nf + icpt as usize).map(|_| (0..k).map(|_| (rng.unit() - 0.5) / scale).collect()).collect()) } else { None };
+    // every 3rd: initial parameters; every 6th: with a large common offset in the (un-penalised) intercept row,
+    // which the optimiser never removes (the objective does not depend on it): all class scores far below / above 0
+    let init: Option<M> = if (i / 2) % 3 == 2 {
+        let mut m: M = (0..nf + icpt as usize).map(|_| (0..k).map(|_| (rng.unit() - 0.5) / scale).collect()).collect();
+        if icpt && (i / 6) % 2 == 1 {
+            let off = *rng.pick(&[-900.0, 900.0, -2000.0]);
+            for v in m[nf].iter_mut() {
+                *v += off;
+            }
+            em.count("fitm:init_with_common_intercept_offset");
+        }
+        Some(m)
+    } else {
+        None
+    };
+    let lay = rng.below(5);
     let class = format!("fitm:alpha={},icpt={},scale={}", if alpha == 0.0 { "0" } else { "pos" }, icpt as u8, scale);
-    run_fitm(em, class, x, y, k, alpha, icpt, ty, tol, init);
+    run_fitm(em, class, x, y, k, alpha, icpt, ty, tol, init, lay, Some(10_000));
 }
 
-fn run_fitm(em: &mut Em, class: String, x: M, y: Vec<usize>, k: usize, alpha: f64, icpt: bool, ty: usize, tol: f64, init: Option<M>) {
+#[allow(clippy::type_complexity)]
+fn fitm_any<C: Ord + Clone + Default>(params: &MultiLogisticRegression<f64>, x: ArrayView2<f64>, y: Vec<C>, probe: &Array2<f64>, owned: bool) -> Result<(M, Vec<f64>, Vec<C>, M, Vec<C>), String> {
+    let m = if owned { params.fit(&Dataset::new(x.to_owned(), Array1::from(y))) } else { params.fit(&DatasetBase::new(x, Array1::from(y))) }.map_err(|e| err_line(&e))?;
+    Ok((to_m(m.params()), m.intercept().to_vec(), m.classes().to_vec(), to_m(&m.predict_probabilities(probe)), m.predict(probe).to_vec()))
+}
+
+#[allow(clippy::too_many_arguments)]
+pub fn run_fitm(em: &mut Em, class: String, x: M, y: Vec<usize>, k: usize, alpha: f64, icpt: bool, ty: usize, tol: f64, init: Option<M>, lay: usize, max_iter: Option<u64>) {
     let nf = x[0].len();
-    let xbig: M = x.iter().take(4).map(|r| r.iter().map(|v| v * 1e3).collect()).collect();
+    let xprobe = probe_rows(&x);
     em.count(&format!("fitm:k={}", k));
+    em.count(&format!("fitm:ty={},init={}", ty, init.is_some() as u8));
     em.count(&class);
-    let op = format!("#fitm ty={} k={} alpha={} icpt={} tol={} init={} x={} y={}", ty, k, alpha, icpt as u8, tol, init.as_ref().map_or("none".to_string(), |i| hx2(i)), hx2(&x), list(y.iter(), |c| c.to_string()));
+    let op = format!("#fitm ty={} k={} alpha={} icpt={} tol={} init={} lay={} maxit={} x={} y={}", ty, k, alpha, icpt as u8, tol, init.as_ref().map_or("none".to_string(), |i| hx2(i)), lay, max_iter.map_or("default".to_string(), |t| t.to_string()), hx2(&x), list(y.iter(), |c| c.to_string()));
     trace(&op);
+    let mut fitted = false;
+    let fitted_ref = &mut fitted;
     em.case_valid(op, &class.clone(), move |ctx| {
-        let xa = arr2(&x, nf);
-        let mut params = MultiLogisticRegression::default().alpha(alpha).with_intercept(icpt).gradient_tolerance(tol).max_iterations(10_000);
+        let xl = Lay::new(&x, nf, lay % 4);
+        let owned = lay == 4;
+        let mut params = MultiLogisticRegression::default().alpha(alpha).with_intercept(icpt).gradient_tolerance(tol);
+        if let Some(mi) = max_iter {
+            params = params.max_iterations(mi);
+        }
         if let Some(i) = &init {
             params = params.initial_params(arr2(i, k));
         }
+        let probe = arr2(&xprobe, nf);
         // class index -> rank in the order of the label type (the model's column order)
         let mut sorted: Vec<&str> = LABEL_NAMES[..k].to_vec();
         sorted.sort();
         let rank: Vec<usize> = (0..k).map(|c| if ty == 1 { sorted.iter().position(|s| *s == LABEL_NAMES[c]).unwrap() } else { c }).collect();
-        let (w, b, classes, p_ext, c_ext): (M, Vec<f64>, Vec<usize>, M, Vec<usize>) = if ty == 0 {
-            match params.fit(&Dataset::new(xa.clone(), Array1::from(y.clone()))) {
-                Ok(m) => (to_m(m.params()), m.intercept().to_vec(), m.classes().to_vec(), to_m(&m.predict_probabilities(&arr2(&xbig, nf))), m.predict(&arr2(&xbig, nf)).to_vec()),
-                Err(e) => {
-                    ctx.fail("fit_succeeds", &class, format!("fit returned {}", format!("{:?}", e).lines().next().unwrap_or("").to_string()));
-                    return "err".into();
-                }
-            }
+        let res: Result<(M, Vec<f64>, Vec<usize>, M, Vec<usize>), String> = if ty == 0 {
+            fitm_any(&params, xl.view(), y.clone(), &probe, owned)
         } else {
-            let ys: Vec<String> = y.iter().map(|c| LABEL_NAMES[*c].to_string()).collect();
             let rk = |s: &String| sorted.iter().position(|n| n == s).unwrap();
-            match params.fit(&Dataset::new(xa.clone(), Array1::from(ys))) {
-                Ok(m) => (to_m(m.params()), m.intercept().to_vec(), m.classes().iter().map(rk).collect(), to_m(&m.predict_probabilities(&arr2(&xbig, nf))), m.predict(&arr2(&xbig, nf)).iter().map(rk).collect()),
-                Err(e) => {
-                    ctx.fail("fit_succeeds", &class, format!("fit returned {}", format!("{:?}", e).lines().next().unwrap_or("").to_string()));
-                    return "err".into();
-                }
+            fitm_any(&params, xl.view(), y.iter().map(|c| LABEL_NAMES[*c].to_string()).collect::<Vec<String>>(), &probe, owned).map(|(w, b, cl, pe, ce)| (w, b, cl.iter().map(rk).collect(), pe, ce.iter().map(rk).collect()))
+        };
+        let (w, b, classes, p_ext, c_ext) = match res {
+            Ok(r) => r,
+            Err(e) => {
+                ctx.fail("fit_succeeds", &format!("{}:err={}", class, err_kind(&e)), format!("fit returned {}", e));
+                return "err".into();
             }
         };
+        *fitted_ref = true;
         ctx.require(classes == (0..k).collect::<Vec<_>>(), "class_set", &class, || format!("classes() = {:?} for {} classes", classes, k));
         let cls: Vec<usize> = y.iter().map(|c| rank[*c]).collect();
         ctx.require(w.len() == nf && b.len() == k, "shape", &class, || format!("params {}x?, intercept {}", w.len(), b.len()));
@@ -660,16 +827,22 @@ fn run_fitm(em: &mut Em, class: String, x: M, y: Vec<usize>, k: usize, alpha: f6
             ctx.require(b.iter().all(|v| *v == 0.0), "no_intercept_means_zero", &class, || format!("intercept {:?} although fit_intercept = false", b));
         }
         let gn = norm2(&g);
-        let floor = stagnation_floor(&x, icpt, alpha, 1.0, doc_loss_m(&x, &cls, alpha, &w, &b));
+        let floor = stagnation_floor(&x, icpt, alpha, 0.5, doc_loss_m(&x, &cls, alpha, &w, &b));
         ctx.require(gn <= tol * 1.0001 + floor, "stationary", &class, || format!("|gradient of the documented objective| = {:e} > gradient_tolerance {:e} (+ solver noise floor {:e})", gn, tol, floor));
-        for (row, c) in p_ext.iter().zip(&c_ext) {
-            ctx.require(row.iter().all(|q| *q >= 0.0 && *q <= 1.0), "proba_in_unit_interval", &class, || format!("probabilities {:?} on a 1e3-scaled row", row));
-            ctx.require((row.iter().sum::<f64>() - 1.0).abs() <= 1e-12, "rows_sum_to_one", &class, || format!("probabilities {:?} sum to {}", row, row.iter().sum::<f64>()));
+        ctx.require(p_ext.len() == xprobe.len() && c_ext.len() == xprobe.len(), "shape", &class, || format!("{} probability rows for {} probe rows", p_ext.len(), xprobe.len()));
+        for ((row, c), xr) in p_ext.iter().zip(&c_ext).zip(&xprobe) {
+            let h: Vec<f64> = (0..k).map(|c| xr.iter().enumerate().map(|(j, a)| a * w[j][c]).sum::<f64>() + b[c]).collect();
+            ctx.require(row.len() == k && row.iter().all(|q| q.is_finite() && *q >= 0.0 && *q <= 1.0), "proba_in_unit_interval", &class, || format!("probabilities {:?} on a probe row with class scores {:?}", row, h));
+            ctx.require((row.iter().sum::<f64>() - 1.0).abs() <= 1e-12, "rows_sum_to_one", &class, || format!("probabilities {:?} sum to {} (class scores {:?})", row, row.iter().sum::<f64>(), h));
             let pm = row.iter().cloned().fold(f64::NEG_INFINITY, f64::max);
             ctx.require(*c < k && row[*c] == pm, "class_is_argmax_of_probabilities", &class, || format!("class {} with probabilities {:?}", c, row));
         }
         "ok".into()
     });
+    if fitted {
+        em.count("fitm:fitted");
+        em.count(&format!("fitm:fitted:ty={}", ty));
+    }
 }
 
 // ------------------------------------------------------------------ GLM
@@ -923,69 +1096,151 @@ fn child_finishes(idx: usize, tier: &str, secs: u64) -> bool {
     done
 }
 
-fn op_glmfit(em: &mut Em, rng: &mut Rng) {
-    let power = pick_power(rng);
-    let l = rng.below(3);
+/// Runs the NEXT case (index `em.idx`) in a watchdog child first.  `Some(true)`: it did not return in time (5 s, and
+/// with `retry` not within 30 s either: rules out a slow machine); `None`: enough time-outs of this `key` were seen in
+/// this run (2 quick, 6 thorough), the caller skips the case.  No-op inside a child and for cases not selected by `--only`.
+pub fn watchdog(em: &mut Em, key: &str, retry: bool) -> Option<bool> {
+    if std::env::var("C12_CHILD").is_ok() || !em.only.map_or(true, |o| o == em.idx) {
+        return Some(false);
+    }
+    let k = format!("glmfit:watchdog_timeout:{}", key);
+    if *em.dist.get(&k).unwrap_or(&0) >= if em.thorough() { 6 } else { 2 } {
+        em.count(&format!("glmfit:skipped_after_watchdog_timeouts:{}", key));
+        return None;
+    }
+    let tier = em.tier.clone();
+    let mut hangs = !child_finishes(em.idx, &tier, 5);
+    if hangs && retry {
+        hangs = !child_finishes(em.idx, &tier, 30);
+    }
+    if hangs {
+        em.count(&k);
+    }
+    Some(hangs)
+}
+
+pub struct GlmCase {
+    pub power: f64,
+    /// link used by the data generator and the oracle (0 identity, 1 log, 2 logit)
+    pub l: usize,
+    /// `true`: `.link(..)` is NOT called; the documented default (identity for power <= 0, log otherwise) must be used
+    pub auto_link: bool,
+    pub icpt: bool,
+    pub alpha: f64,
+    pub tol: f64,
+    pub bad: bool,
+    pub lay: usize,
+    /// `None` = the default budget of the crate (100)
+    pub max_iter: Option<usize>,
+    pub x: M,
+    pub y: Vec<f64>,
+}
+
+fn op_glmfit(em: &mut Em, rng: &mut Rng, i: usize) {
+    // the 36 (power, link, intercept) arms are cycled, every 6th fit leaves the link to the default selection
+    let powers = [0.0, 1.0, 1.5, 1.25, 2.0, 3.0];
+    let power = powers[i % 6];
+    let auto_link = (i / 6) % 6 == 5;
+    let l = if auto_link { if power <= 0.0 { 0 } else { 1 } } else { (i / 6) % 3 };
+    let icpt = (i / 18) % 3 != 2;
     let n = 6 + rng.below(if em.thorough() { 60 } else { 20 });
     let nf = 1 + rng.below(3);
-    let icpt = rng.chance(2, 3);
     let alpha = *rng.pick(&[0.0, 0.01, 0.1, 1.0, 1.0]);
     let tol = *rng.pick(&[1e-4, 1e-4, 1e-6]);
     let (x, mut y) = gen_glm_data(rng, power, l, n, nf, false);
+    if auto_link && power == 0.0 {
+        // Normal targets of either sign: a wrong default (log link) cannot even start
+        for v in y.iter_mut() {
+            *v -= 3.0;
+        }
+    }
     // a share of out-of-support targets: must be rejected with an error
     let bad = power > 0.0 && rng.chance(1, 8);
     if bad {
         let i = rng.below(n);
         y[i] = if power >= 2.0 && rng.coin() { 0.0 } else { -0.5 };
     }
-    run_glmfit(em, power, l, icpt, alpha, tol, bad, x, y);
+    let lay = rng.below(5);
+    run_glmfit(em, GlmCase { power, l, auto_link, icpt, alpha, tol, bad, lay, max_iter: Some(10_000), x, y });
 }
 
-fn run_glmfit(em: &mut Em, power: f64, l: usize, icpt: bool, alpha: f64, tol: f64, bad: bool, x: M, y: Vec<f64>) {
+pub fn run_glmfit(em: &mut Em, c: GlmCase) {
+    let GlmCase { power, l, auto_link, icpt, alpha, tol, bad, lay, max_iter, x, y } = c;
     let nf = x[0].len();
     let class = format!("glmfit:power={},link={},icpt={}", power_name(power), l, icpt as u8);
     em.count(&class);
     if bad {
         em.count("glmfit:target_out_of_support");
     }
-    let op = format!("#glmfit power={} l={} icpt={} alpha={} tol={} bad={} x={} y={}", power, l, icpt as u8, alpha, tol, bad as u8, hx2(&x), hx(&y));
+    if auto_link {
+        em.count("glmfit:default_link");
+    }
+    let op = format!("#glmfit power={} l={} auto={} icpt={} alpha={} tol={} bad={} lay={} maxit={} x={} y={}", power, l, auto_link as u8, icpt as u8, alpha, tol, bad as u8, lay, max_iter.map_or("default".to_string(), |t| t.to_string()), hx2(&x), hx(&y));
     let class_v = class.clone();
     trace(&op);
-    // identity link with power >= 1: the mean can reach <= 0, where the deviance is undefined
-    let risky = l == 0 && power > 0.0 && !bad;
+    // every fit that is expected to succeed runs under the watchdog: with the identity link and power >= 1 the mean can
+    // reach <= 0, where the deviance is undefined and the real `fit` may never return; any other arm that stops
+    // returning is reported the same way (clause `terminates`) instead of hanging the check
     let mut hangs = false;
-    if risky && std::env::var("C12_CHILD").is_err() && em.only.map_or(true, |o| o == em.idx) {
-        let timeouts = *em.dist.get("glmfit:watchdog_timeout").unwrap_or(&0);
-        if timeouts >= if em.thorough() { 6 } else { 2 } {
-            // enough witnesses of the non-termination in this run; do not spend more time on it
-            em.count("glmfit:skipped_after_watchdog_timeouts");
-            return;
+    if !bad {
+        // without intercept, identity link, power >= 1: the start point has mean 0 and the fit never returns (open
+        // finding): two witnesses per run (six thorough) are enough; every other class is always run
+        let known = l == 0 && power > 0.0 && !icpt;
+        match watchdog(em, if known { "icpt=0" } else { "icpt=1" }, !known) {
+            None => {
+                // keeps the case index aligned with the watchdog children, which never skip
+                em.case(format!("#glmfit_skipped {}", &op[8..]), |ctx| {
+                    ctx.mark_trivial();
+                    "skipped".into()
+                });
+                return;
+            }
+            Some(h) => hangs = h,
         }
-        let tier = em.tier.clone();
-        hangs = !child_finishes(em.idx, &tier, 5);
-        if hangs {
-            em.count("glmfit:watchdog_timeout");
-        }
+    }
+    let mut fitted = false;
+    let fitted_ref = &mut fitted;
+    // identity link, power >= 1, with intercept: does the first steepest-descent step of unit length from the start
+    // point (intercept = mean(y), coef = 0) already leave the domain mean > 0?  (open finding 6: the line search then
+    // evaluates a NaN cost and never returns)
+    let unit_step_leaves_domain = l == 0 && power > 0.0 && icpt && !bad && {
+        let b0 = y.iter().sum::<f64>() / y.len() as f64;
+        let (gw, gb) = doc_glm_grad(power, Link::Identity, alpha, &x, &y, &vec![0.0; nf], b0);
+        x.iter().any(|r| r.iter().zip(&gw).map(|(a, g)| -a * g).sum::<f64>() + b0 - gb <= 0.0)
+    };
+    if unit_step_leaves_domain {
+        em.count("glmfit:identity_link_unit_step_leaves_domain");
     }
     let body = move |ctx: &mut Ctx| {
         if hangs {
-            ctx.fail("terminates", &class, "fit did not return within 5 s (watchdog child process killed); start point has mean <= 0 or the line search left the domain of the deviance".to_string());
+            let class = if unit_step_leaves_domain { format!("{}:unit_step_leaves_domain", class) } else { class.clone() };
+            ctx.fail("terminates", &class, "fit did not return within 5 s (with intercept: nor within 30 s; watchdog child process killed); start point has mean <= 0 or the line search left the domain of the deviance".to_string());
             return "timeout".into();
         }
-        let ds = Dataset::new(arr2(&x, nf), Array1::from(y.clone()));
-        let res = TweedieRegressor::params().power(power).link(link_of(l)).alpha(alpha).fit_intercept(icpt).tol(tol).max_iter(10_000).fit(&ds);
+        let xl = Lay::new(&x, nf, lay % 4);
+        let mut params = TweedieRegressor::params().power(power).alpha(alpha).fit_intercept(icpt).tol(tol);
+        if !auto_link {
+            params = params.link(link_of(l));
+        }
+        if let Some(mi) = max_iter {
+            params = params.max_iter(mi);
+        }
+        let res = if lay == 4 { params.fit(&Dataset::new(arr2(&x, nf), Array1::from(y.clone()))) } else { params.fit(&DatasetBase::new(xl.view(), Array1::from(y.clone()))) };
         if bad {
-            ctx.require(matches!(res, Err(linfa_linear::LinearError::InvalidTargetRange(_))), "rejects_out_of_support_targets", &format!("glmfit:power={}", power_name(power)), || format!("fit on targets {:?} returned {:?}", y, res.as_ref().map(|m| m.coef.to_vec())));
+            // the statement asks for "an error"; which variant is not part of it
+            ctx.require(res.is_err(), "rejects_out_of_support_targets", &format!("glmfit:power={}", power_name(power)), || format!("fit on targets {:?} returned {:?}", y, res.as_ref().map(|m| m.coef.to_vec())));
             return "ok".into();
         }
         match res {
             Err(e) => {
-                ctx.fail("fit_succeeds", &class, format!("fit returned {}", format!("{:?}", e).lines().next().unwrap_or("").to_string()));
+                ctx.fail("fit_succeeds", &class, format!("fit returned {}", err_line(&e)));
                 "err".into()
             }
             Ok(m) => {
+                *fitted_ref = true;
                 let coef = m.coef.to_vec();
                 let b = m.intercept;
+                ctx.require(coef.len() == nf && (icpt || b == 0.0), "shape", &class, || format!("coef {:?} intercept {} (fit_intercept = {})", coef, b, icpt));
                 let (gw, gb) = doc_glm_grad(power, link_of(l), alpha, &x, &y, &coef, b);
                 let mut g = gw;
                 if icpt {
@@ -995,15 +1250,23 @@ fn run_glmfit(em: &mut Em, power: f64, l: usize, icpt: bool, alpha: f64, tol: f6
                 // curvature bound of the unit deviance along the fit: 2 (1 + max|y|) / min(mu, 1)^(power+1) is generous for these data
                 let ymax = y.iter().cloned().fold(0.0, |a: f64, b: f64| a.max(b.abs()));
                 let floor = stagnation_floor(&x, icpt, alpha, 2.0 * (1.0 + ymax) * 20.0, doc_glm_obj(power, link_of(l), alpha, &x, &y, &coef, b));
-                ctx.require(gn <= tol * 1.0001 + floor, "stationary", &class, || format!("|gradient of 1/2(deviance + alpha |w|^2)| = {:e} > tol {:e} (+ solver noise floor {:e}) at coef={:?} intercept={}", gn, tol, floor, coef, b));
-                let pr = m.predict(&arr2(&x, nf)).to_vec();
-                for v in &pr {
+                ctx.require(gn <= tol * 1.0001 + floor, "stationary", &class, || format!("|gradient of 1/2(deviance + alpha |w|^2)| = {:e} > tol {:e} (+ solver noise floor {:e}) at coef={:?} intercept={}{}", gn, tol, floor, coef, b, if auto_link { " (link left to the default: identity for power 0, log otherwise)" } else { "" }));
+                // predictions: on the training rows and on rows scaled by +-30 (|eta| large)
+                let mut rows = x.clone();
+                rows.extend(x.iter().take(3).map(|r| r.iter().map(|v| v * 30.0).collect::<Vec<f64>>()));
+                rows.extend(x.iter().take(3).map(|r| r.iter().map(|v| v * -30.0).collect::<Vec<f64>>()));
+                let pr = m.predict(&arr2(&rows, nf)).to_vec();
+                ctx.require(pr.len() == rows.len(), "shape", &class, || format!("{} predictions for {} rows", pr.len(), rows.len()));
+                for (v, row) in pr.iter().zip(&rows) {
                     let ok = match l {
                         0 => v.is_finite(),
                         1 => *v >= 0.0,
                         _ => *v >= 0.0 && *v <= 1.0,
                     };
                     ctx.require(ok, "predictions_in_link_range", &class, || format!("prediction {}", v));
+                    let eta: f64 = row.iter().zip(&coef).map(|(a, c)| a * c).sum::<f64>() + b;
+                    let want = doc_link_inv(link_of(l), eta);
+                    ctx.require(close(*v, want, 1e-9, 1e-300), "prediction_is_inverse_link_of_linear_predictor", &class, || format!("prediction {} but h({}) = {}", v, eta, want));
                 }
                 "ok".into()
             }
@@ -1013,6 +1276,16 @@ fn run_glmfit(em: &mut Em, power: f64, l: usize, icpt: bool, alpha: f64, tol: f6
         em.case(op, body)
     } else {
         em.case_valid(op, &class_v, body)
+    }
+    if fitted {
+        em.count("glmfit:fitted");
+        em.count(&format!("glmfit:fitted:power={},link={}", power_name(power), l));
+        if auto_link {
+            em.count("glmfit:fitted:default_link");
+        }
+        if l == 0 && power > 0.0 {
+            em.count("glmfit:fitted:identity_link_power_ge_1");
+        }
     }
 }
 
@@ -1078,9 +1351,9 @@ pub fn run(em: &mut Em, rng: &mut Rng) {
         op_loss_grad(em, rng, i % 3 != 2);
         op_mloss_mgrad(em, rng, i % 3 != 2);
     }
-    for _ in 0..100 * f {
-        op_predict2(em, rng);
-        op_predictm(em, rng);
+    for i in 0..200 * f {
+        op_predict2(em, rng, i % 2 == 1);
+        op_predictm(em, rng, i % 2 == 1);
     }
     // GLM pieces
     for _ in 0..80 * f {
@@ -1099,16 +1372,17 @@ pub fn run(em: &mut Em, rng: &mut Rng) {
         let y = vec![1.0, 3.0, 2.0, 2.0, 4.0, 3.0, 6.0, 5.0];
         for l in [1usize, 2, 0] {
             let yy: Vec<f64> = if l == 2 { y.iter().map(|v| v / 8.0).collect() } else { y.clone() };
-            run_glmfit(em, 1.0, l, true, 0.1, 1e-6, false, x.clone(), yy);
+            run_glmfit(em, GlmCase { power: 1.0, l, auto_link: false, icpt: true, alpha: 0.1, tol: 1e-6, bad: false, lay: 4, max_iter: Some(10_000), x: x.clone(), y: yy });
         }
         // log_sum_exp with the max of the whole matrix: rows far below it underflow, the gradient is wrong
         let x: M = [-117.2, -131.9, 151.0, -74.3, 87.9, -149.4, -58.0].iter().map(|v| vec![*v]).collect();
-        run_fitm(em, "fitm:alpha=pos,icpt=1,scale=100".to_string(), x.clone(), vec![1, 2, 3, 0, 0, 4, 0], 5, 0.1, true, 0, 1e-4, None);
-        run_fitm(em, "fitm:alpha=pos,icpt=1,scale=100".to_string(), x, vec![1, 2, 3, 0, 0, 4, 0], 5, 0.1, true, 1, 1e-4, Some(vec![vec![0.001, -0.002, 0.0, 0.003, -0.001], vec![0.0; 5]]));
+        run_fitm(em, "fitm:alpha=pos,icpt=1,scale=100".to_string(), x.clone(), vec![1, 2, 3, 0, 0, 4, 0], 5, 0.1, true, 0, 1e-4, None, 4, Some(10_000));
+        run_fitm(em, "fitm:alpha=pos,icpt=1,scale=100".to_string(), x, vec![1, 2, 3, 0, 0, 4, 0], 5, 0.1, true, 1, 1e-4, Some(vec![vec![0.001, -0.002, 0.0, 0.003, -0.001], vec![0.0; 5]]), 4, Some(10_000));
     }
-    for _ in 0..60 * f {
-        op_fit2(em, rng);
-        op_fitm(em, rng);
-        op_glmfit(em, rng);
+    for i in 0..72 * f {
+        op_fit2(em, rng, i);
+        op_fitm(em, rng, i);
+        op_glmfit(em, rng, i);
     }
+    ext::run(em, rng);
 }
